@@ -4,6 +4,7 @@ package regx
 
 import (
 	"context"
+	"strings"
 	"encoding/binary"
 	"fmt"
 	"hash/crc32"
@@ -130,6 +131,16 @@ func ReadAll(base, table string) ([]Slot, error) {
 				continue
 			}
 			ok := crc32.ChecksumIEEE(block[:BlockSize-4]) == binary.LittleEndian.Uint32(block[BlockSize-4:])
+			if !ok {
+				// a torn block with a valid backup is restored by SOP on its next access: read the backup
+				cow := fmt.Sprintf("%s_%d.cow", strings.TrimSuffix(f, ".reg"), blk)
+				if cb, err := os.ReadFile(cow); err == nil && len(cb) == BlockSize && (allZero(cb) || crc32.ChecksumIEEE(cb[:BlockSize-4]) == binary.LittleEndian.Uint32(cb[BlockSize-4:])) {
+					block, ok = cb, true
+					if allZero(block) {
+						continue
+					}
+				}
+			}
 			for s := 0; s < HandlesPerBlock; s++ {
 				raw := block[s*SlotSize : (s+1)*SlotSize]
 				if allZero(raw) {
